@@ -56,6 +56,10 @@ def sid_to_sid(sid: str | Sid) -> Sid:
         new_sid._init(string=string, type=_type, fields=fields)
         return new_sid
 
+    elif string and not fields:  # the string is not typed: the query cannot be applied, it stays in the string.
+        new_sid._init(string=f"{string}?{query}")
+        return new_sid
+
     # applying the query (applying the query may update the type)
     else:
         string, _type, fields = apply_query(string, query=query, type=_type, fields=fields)
